@@ -64,4 +64,4 @@ def unit_text(chk, syscall_entry_hook="((void)0)", with_sim_globals=False):
     text += tbx.handleSyscall(m)
     rp, prologue = tbx.run_parts(m)
     text += rp + TB_POWER_ON
-    return text, {"RESET_BEGIN": rb, "RESET_END": re_, "prologue": prologue}
+    return text, {"RESET_BEGIN": rb, "RESET_END": re_, "prologue": prologue["stmts"], "extra_locals": prologue["extra_locals"]}
